@@ -46,11 +46,22 @@ func (p AuditPath) Serialize() map[string]hashing.Digest {
 func ParseAuditPath(serialized map[string]hashing.Digest) AuditPath {
 	parsed := make(AuditPath, len(serialized))
 	for k, v := range serialized {
+		// keys come from an untrusted server: an entry whose key does not
+		// name a position ("index|height") cannot be part of any path
 		tokens := strings.Split(k, "|")
-		index, _ := strconv.Atoi(tokens[0])
-		height, _ := strconv.Atoi(tokens[1])
+		if len(tokens) != 2 {
+			continue
+		}
+		index, err := strconv.ParseUint(tokens[0], 10, 64)
+		if err != nil {
+			continue
+		}
+		height, err := strconv.ParseUint(tokens[1], 10, 16)
+		if err != nil {
+			continue
+		}
 		var key [keySize]byte
-		copy(key[:8], util.Uint64AsBytes(uint64(index)))
+		copy(key[:8], util.Uint64AsBytes(index))
 		copy(key[8:], util.Uint16AsBytes(uint16(height)))
 		parsed[key] = v
 	}
